@@ -238,4 +238,76 @@ theorem vc_image_wf {cs : Int} {d : PyVal} {o : VcObj} (h : vcFromDict md5 cs d 
 theorem vc_import_stable {cs : Int} {d : PyVal} {o : VcObj} (h : vcFromDict md5 cs d = .ok o) :
     vcFromDict md5 cs (vcToDict o) = .ok o := vc_roundtrip md5 cs o (vc_image_wf md5 h)
 
+/-! ### concrete objects for the non-vacuity examples of Props/C08.lean -/
+
+def exTx : TxObj := ⟨⟨[0, 20], [10, 30], .minus, some ([5, 20], [10, 25], [.ONE, .ZERO]),
+    [("note".toList, ["a".toList, "b".toList])], some "tx1".toList, none, some "protein_coding".toList,
+    none, none, some "chr1".toList, some true⟩, none, "00".toList, none⟩
+
+theorem exTx_wf : TxWF exTx where
+  quals := by unfold QualsWF; decide
+  cds := by
+    intro s e f h
+    simp only [exTx, Option.some.injEq, Prod.mk.injEq] at h
+    obtain ⟨rfl, rfl, rfl⟩ := h
+    decide
+  biotype := by
+    intro n h
+    simp only [exTx, Option.some.injEq] at h
+    subst h
+    decide +kernel
+
+def exFeat : FeatObj := ⟨⟨[3, 9], [5, 12], .unstranded, [], none, ["enhancer".toList, "promoter".toList],
+    some "f".toList, none, none⟩, none, "01".toList, none⟩
+
+theorem exFeat_wf : FeatWF exFeat := ⟨by unfold QualsWF; decide, by decide⟩
+
+def exCds : CdsObj := ⟨⟨[1], [4], .plus, [.ZERO], none, none, [("k".toList, ["v".toList])]⟩, none, none, []⟩
+
+theorem exCds_wf : CdsWF (fun _ => []) exCds := ⟨by unfold QualsWF; decide, rfl⟩
+
+def exGene : GeneObj := ⟨[exTx], some "g".toList, none, some "protein_coding".toList, none, [], none, none, "02".toList⟩
+
+theorem exGene_wf : GeneWF exGene where
+  quals := by unfold QualsWF; decide
+  biotype := by
+    intro n h
+    simp only [exGene, Option.some.injEq] at h
+    subst h
+    decide +kernel
+  children := by intro t ht; simp only [exGene, List.mem_singleton] at ht; subst ht; exact exTx_wf
+  nonempty := by decide
+
+def exFc : FcObj := ⟨[exFeat], none, some "fc".toList, none, none, [], none, none, "03".toList⟩
+
+theorem exFc_wf : FcWF exFc where
+  quals := by unfold QualsWF; decide
+  children := by intro t ht; simp only [exFc, List.mem_singleton] at ht; subst ht; exact exFeat_wf
+  nonempty := by decide
+
+def exVc : VcObj := ⟨[⟨⟨3, 5, [], "AC".toList, "SNV".toList, none, none, none⟩, none, "04".toList⟩,
+    ⟨⟨3, 4, [], "G".toList, "SNV".toList, none, none, none⟩, none, "05".toList⟩,
+    ⟨⟨9, 10, [], "".toList, "deletion".toList, some 1, none, none⟩, none, "06".toList⟩],
+    none, none, [], none, none, "07".toList⟩
+
+theorem exVc_wf : VcWF exVc where
+  quals := by unfold QualsWF; decide
+  children := by
+    intro t ht
+    simp only [exVc, List.mem_cons, List.mem_nil_iff, or_false] at ht
+    rcases ht with rfl | rfl | rfl <;> exact ⟨by unfold QualsWF; decide, by decide⟩
+  nonempty := by decide
+  sorted := by decide
+
+def exAc : AcObj := ⟨[exGene], [exFc], [], some "ac".toList, none, [], none, none, none, some (10, 14), some true,
+  .chunk "ACGT".toList "NT_STRICT".toList "chr1".toList 10 14 .plus, []⟩
+
+theorem exAc_wf : AcWF (fun _ => []) exAc where
+  quals := by unfold QualsWF; decide
+  genes := by intro g hg; simp only [exAc, List.mem_singleton] at hg; subst hg; exact exGene_wf
+  fcs := by intro c hc; simp only [exAc, List.mem_singleton] at hc; subst hc; exact exFc_wf
+  vcs := by intro c hc; cases hc
+  parent := by show "ACGT".toList ≠ []; decide
+  guid := rfl
+
 end BioCantor.Proofs.Dig
